@@ -30,6 +30,7 @@ def run(ctx):
     ctx.do(SI.rule_pt1, [SI.HYP], scope=ctx.scope(ENTRIES))
     ctx.do(SH.rule_sh5, only={"Point.coords", "Point.distance"})
     ctx.do(PR.rule_fr1, setter=False)
+    ctx.do(SH.rule_ax1, [SH.CORE, H.HYP], scope=ctx.scope(ENTRIES))
     ctx.do(u1, ENTRIES, min_functions=15)
     ctx.r.assume("round-trip equality, agreement of the closed-form metrics, "
                  "symmetry and the triangle inequality are numerical and not "
